@@ -29,6 +29,9 @@ package common
 //@   ensures reserved_spelling_is_escaped: (lastResult(formatting.ToPascalCase) in reservedNames) ==> result == lastResult(formatting.ToPascalCase) + "_field"
 //@ func EnumValueIdentifierName
 //@   property C08
+// (an enum value is spelled k<PascalCase>: no entry of the reserved-word table starts with `k`, so with the table known
+// the escaping branch cannot be taken; it stays in the code for the day the table grows)
+//@   dead-return 1: no reserved word of the table is of the form k<Name>
 //@   ensures unreserved_spelling_is_kept: !(("k" + lastResult(formatting.ToPascalCase)) in reservedNames) ==> result == "k" + lastResult(formatting.ToPascalCase)
 //@   ensures reserved_spelling_is_escaped: (("k" + lastResult(formatting.ToPascalCase)) in reservedNames) ==> result == "k" + lastResult(formatting.ToPascalCase) + "_value"
 //@ func TypeIdentifierName
